@@ -39,7 +39,7 @@ theorem insertNew_blkKept {st : State} (h : SInv st) (c : Var) (p : Nat) (srcs) 
   obtain ⟨i1, k1, a1⟩ := h1
   have h2 : BlkKept s1 (if (s1.nodes c).free.isEmpty = true then allocBlock s1 c else s1) := by
     by_cases hc : (s1.nodes c).free.isEmpty = true
-    · rw [if_pos hc]; exact (blkKept_alloc i1 4).trans (BlkKept.of_eq rfl)
+    · rw [if_pos hc]; exact (blkKept_alloc i1 (s1.per.f c.k)).trans (BlkKept.of_eq rfl)
     · rw [if_neg hc]; exact BlkKept.refl s1
   generalize (if (s1.nodes c).free.isEmpty = true then allocBlock s1 c else s1) = s2 at h2
   cases (s2.nodes c).free with
